@@ -88,6 +88,10 @@ pub fn finish(ctx: &mut Ctx, meta: Meta) -> i32 {
         ctx.tally.inconclusive,
         ctx.start.elapsed().as_secs_f64()
     );
+    if ctx.failure.is_none() && ctx.tally.evaluations > 0 && ctx.tally.inconclusive * 2 > ctx.tally.evaluations {
+        println!("INCONCLUSIVE: {} of {} cases could not be decided by the engine", ctx.tally.inconclusive, ctx.tally.evaluations);
+        return 2;
+    }
     if let (Some(f), Some(p)) = (&ctx.failure, replay_path) {
         println!("violation [{}] in campaign {}: {}", f.sig, f.campaign, f.violation.detail);
         println!("minimal case: {}", f.case.to_line());
